@@ -13,8 +13,8 @@ import (
 	"pgregory.net/rapid"
 )
 
-const ioDeadline = 10 * time.Second     // budget for a loopback exchange that normally takes < 5 ms
-const streamDeadline = 5 * time.Second  // no-progress watchdog for a flushed chunk (normally < 5 ms)
+const ioDeadline = 10 * time.Second    // budget for a loopback exchange that normally takes < 5 ms
+const streamDeadline = 5 * time.Second // no-progress watchdog for a flushed chunk (normally < 5 ms)
 
 type labCfg struct {
 	Strategy  string   `json:"strategy"`
